@@ -9,8 +9,7 @@
    it, and every recoverable store is related to the plain sequential logs
    (consistent indexes, log end = last row or retained maximum).
    For every membership-filter implementation; histories of any length; the
-   multi-channel StoreAppendBatch is covered by the one-batch / crash theorems
-   but not by the refinement ([op_ok]). *)
+   multi-channel StoreAppendBatch is included ([op_okb]). *)
 From WK Require Import Base.Base Model.KV Gen.Consts_C07 Model.MsgStore Model.MsgStore_C07 Model.MsgStore_C09
      Proof.KV Proof.MsgStore_base Proof.MsgStore_rel Proof.MsgStore_reads Proof.MsgStore_C07 Proof.MsgStore_C09.
 
@@ -85,7 +84,7 @@ Print Assumptions c09_inv.
    (recovered keys = the model's store after j ops, j inside every label's window). *)
 Theorem c09_model_satisfies_monitor :
   forall (ops : list op) (crashes : list crash) (kvfinal : list kvent),
-    Forall op_ok ops -> Forall (model_crash (run_kvs xinit ops)) crashes ->
+    Forall op_okb ops -> Forall (model_crash (run_kvs xinit ops)) crashes ->
     C09_monitor (C09Case (C07Case true (entries ops (snd (xrun true ops))) kvfinal) crashes) = 0.
 Proof. exact c09_monitor_zero_on_model. Qed.
 Print Assumptions c09_model_satisfies_monitor.
